@@ -220,6 +220,50 @@ def readEpoch (s : Bytes) : Option (Int × Nat) := do
   else if nanos = 0 then some (-(secs : Int), 0)
   else some (-(secs : Int) - 1, 1000000000 - nanos)
 
+/-- an optional leading `-` -/
+def splitSign (s : Bytes) : Bool × Bytes :=
+  match s with
+  | c :: r => if c = 45 then (true, r) else (false, s)
+  | [] => (false, s)
+
+/-- the number a decimal text `[-] 1*DIGIT [ "." 1*DIGIT ]` denotes, without any truncation:
+    `(num, k)` stands for the rational `num / 10^k` (`k` = number of fraction digits).
+    `-0.5` is (−5, 1), `12` is (12, 0), `1.118` is (1118, 3). -/
+def readDecimal (s : Bytes) : Option (Int × Nat) :=
+  let (neg, body) := splitSign s
+  let ip := body.takeWhile isDigit
+  match digitsOpt ip with
+  | none => none
+  | some a =>
+    let frac : Option (Nat × Nat) := match body.drop ip.length with
+      | [] => some (0, 0)
+      | c :: f => if c = 46 then (digitsOpt f).map fun v => (v, f.length) else none
+    match frac with
+    | none => none
+    | some (b, k) =>
+      let mag : Int := ((a * 10 ^ k + b : Nat) : Int)
+      some (if neg then -mag else mag, k)
+
+/-- the text is a decimal number of seconds that is exactly the instant `unix + nanos / 10^9`
+    (seconds since 1970-01-01T00:00:00Z): with the text denoting `num / 10^k`,
+    `num / 10^k = (unix · 10^9 + nanos) / 10^9`, sign included, stated without division -/
+def DenotesInstant (txt : Bytes) (unix : Int) (nanos : Nat) : Prop :=
+  ∃ num k, readDecimal txt = some (num, k) ∧
+    num * 1000000000 = (unix * 1000000000 + (nanos : Int)) * ((10 ^ k : Nat) : Int)
+
+/-- the sign of a decimal text: `-` or nothing -/
+def signBytes (neg : Bool) : Bytes := if neg then [45] else []
+
+def signedInt (neg : Bool) (n : Nat) : Int := if neg then -(n : Int) else (n : Int)
+
+/-- decimal epoch seconds with at most nine fraction digits, `[-] 1*DIGIT [ "." 1*9DIGIT ]`, and the
+    signed number of nanoseconds since 1970-01-01T00:00:00Z the text denotes
+    (`-0.5` denotes −500000000; leading zeros and trailing zeros are allowed) -/
+inductive EpochText : Bytes → Int → Prop
+  | whole {neg ip a} : Digits ip a → EpochText (signBytes neg ++ ip) (signedInt neg (a * 1000000000))
+  | frac {neg ip fp a b} : Digits ip a → Digits fp b → fp.length ≤ 9 →
+      EpochText (signBytes neg ++ (ip ++ 46 :: fp)) (signedInt neg (a * 1000000000 + b * 10 ^ (9 - fp.length)))
+
 /-! ## copy source -/
 
 def hexv (c : UInt8) : Option Nat :=
